@@ -21,9 +21,17 @@ Definition get_code ps (code : Z) : option (Z * string) :=
 (* keeper.SetNetworkProperties (whole record): message with permission, genesis *)
 Definition set_all (ps new : props) : option props := if validate new then Some new else None.
 
-(* msg server: gated by the change permission *)
-Definition msg_set_all (allowed : bool) (ps new : props) : option props :=
-  if allowed then set_all ps new else None.
+(* msg server: gated by the change permission; [msg_unique_guard] (read from the source by the
+   translator) says whether it also applies the two unique-keys guards of SetNetworkProperty
+   before the whole-record write *)
+Definition msg_set_all (allowed : bool) (recs : list (string * string)) (ps new : props) : option props :=
+  if allowed then
+    if msg_unique_guard then
+      if negb (String.eqb (ensure_old_unique_keys_not_removed (f_UniqueIdentityKeys ps) (f_UniqueIdentityKeys new)) "") then None
+      else if negb (String.eqb (ensure_unique_keys recs (f_UniqueIdentityKeys ps) (f_UniqueIdentityKeys new)) "") then None
+      else set_all ps new
+    else set_all ps new
+  else None.
 
 (* proposal Apply: reject when unreadable or already equal, else SetNetworkProperty *)
 Definition value_eqb (a b : Z * string) : bool := ((fst a =? fst b) && String.eqb (snd a) (snd b))%bool.
